@@ -698,14 +698,28 @@ func c04R6(c *kit.Ctx, m *storeModel, r6 *kit.Rule) {
 		s := m.siteOf(call)
 		return s != nil && s.HasVerb("INSERT", "meta")
 	}
+	// the effect itself (wherever it is executed: in the function or in a helper evaluated inline)
+	rootEffect := func(cur *kit.Func, call *ast.CallExpr) bool {
+		if m.writerOf(cur, call) == ew && len(call.Args) >= 2 {
+			if s, ok := kit.ConstString(cur.Info(), call.Args[1]); ok && s == "root" {
+				return true
+			}
+		}
+		return false
+	}
+	keyEffect := func(cur *kit.Func, call *ast.CallExpr) bool {
+		s := m.siteOf(call)
+		return s != nil && s.HasVerb("UPDATE", "meta") && len(s.Stmts) > 0 && contains(s.Stmts[0].Cols, "jwt_key")
+	}
 	type target struct {
-		name string
-		hit  func(f *kit.Func, call *ast.CallExpr) bool
+		name   string
+		hit    func(f *kit.Func, call *ast.CallExpr) bool
+		effect func(cur *kit.Func, call *ast.CallExpr) bool
 	}
 	targets := []target{
-		{"root initialiser", isRootInit},
-		{"signing-key initialiser", isKeyInit},
-		{"meta row insert", func(f *kit.Func, call *ast.CallExpr) bool { return isMetaInsert(call) }},
+		{"root initialiser", isRootInit, rootEffect},
+		{"signing-key initialiser", isKeyInit, keyEffect},
+		{"meta row insert", func(f *kit.Func, call *ast.CallExpr) bool { return isMetaInsert(call) }, func(cur *kit.Func, call *ast.CallExpr) bool { return isMetaInsert(call) }},
 	}
 	// candidate functions: every declared function of store that contains a call of a target
 	for _, tg := range targets {
@@ -767,10 +781,27 @@ func c04R6(c *kit.Ctx, m *storeModel, r6 *kit.Rule) {
 				}
 				return false, false
 			}
+			// initialisers are evaluated inline: a guard that lives inside the initialiser
+			// (ensureKey: `if len(key) > 0 { return nil }`) counts like one at the call
+			st.ShouldInline = func(cf *kit.Func, call *ast.CallExpr) bool {
+				return m.writerOf(st.Cur(), call) == nil && txParamOf(cf) == nil
+			}
 			reached := map[*ast.CallExpr]bool{}
+			bySite := map[string]*ast.CallExpr{}
 			st.OnCall = func(call *ast.CallExpr, n ast.Node, s kit.S) []kit.S {
-				if tg.hit(f, call) {
-					reached[call] = true
+				if st.Cur() == f && tg.hit(f, call) {
+					k := strconv.Itoa(int(call.Pos()))
+					bySite[k] = call
+					s = s.Set("site", k)
+					if tg.effect(f, call) || f.CalleeFunc(call) == nil || !st.ShouldInline(f.CalleeFunc(call), call) {
+						reached[call] = true
+					}
+					return []kit.S{s}
+				}
+				if st.Cur() != f && tg.effect(st.Cur(), call) {
+					if site := bySite[s.Get("site")]; site != nil {
+						reached[site] = true
+					}
 				}
 				return nil
 			}
@@ -809,12 +840,13 @@ func c04R6(c *kit.Ctx, m *storeModel, r6 *kit.Rule) {
 	type live struct {
 		name    string
 		hit     func(f *kit.Func, call *ast.CallExpr) bool
+		effect  func(cur *kit.Func, call *ast.CallExpr) bool
 		rootSet bool
 		keyLen  int64
 	}
 	for _, lv := range []live{
-		{"root initialiser", isRootInit, false, 20},
-		{"signing-key initialiser", isKeyInit, true, 0},
+		{"root initialiser", isRootInit, rootEffect, false, 20},
+		{"signing-key initialiser", isKeyInit, keyEffect, true, 0},
 	} {
 		for _, f := range c.P.Funcs("store") {
 			if f.Body == nil || f.Lit != nil {
@@ -853,9 +885,19 @@ func c04R6(c *kit.Ctx, m *storeModel, r6 *kit.Rule) {
 				return nil, false
 			}
 			st.Fold = func(e ast.Expr, s kit.S) (bool, bool) { return foldSubst(info, e, subst) }
+			st.ShouldInline = func(cf *kit.Func, call *ast.CallExpr) bool {
+				return m.writerOf(st.Cur(), call) == nil && txParamOf(cf) == nil
+			}
 			st.OnCall = func(call *ast.CallExpr, n ast.Node, s kit.S) []kit.S {
-				if lv.hit(f, call) {
+				// the initialisation counts when its effect is executed (in the function or in
+				// an initialiser evaluated inline); a call that is not followed counts as is
+				if lv.effect(st.Cur(), call) {
 					return []kit.S{s.Set("init", "1")}
+				}
+				if st.Cur() == f && lv.hit(f, call) {
+					if cf := f.CalleeFunc(call); cf == nil || !st.ShouldInline(cf, call) {
+						return []kit.S{s.Set("init", "1")}
+					}
 				}
 				return nil
 			}
